@@ -520,7 +520,7 @@ def main(argv):
             # load a single run can report what is only slowness. Like a stream disagreement, an oracle failure must
             # come back when the same sample is run again (up to two more times) or it is recorded as unreproduced.
             mine = [l for l in of if not (re.match(r"ORACLE-FAIL (C\d\d) ", l) and re.match(r"ORACLE-FAIL (C\d\d) ", l).group(1) != prop)]
-            if mine and ncases > 0 and os_ in TIMED_ORACLES:
+            if mine and ncases > 0 and os_ in TIMED_ORACLES and not any("did not finish within" in l for l in mine):
                 again = set()
                 for _ in range(2):
                     of2, _, _ = run_oracle(os_, seed, on, tier, tag, None)
